@@ -50,6 +50,14 @@ func FuzzTokenBytes(f *testing.F) {
 			f.Add(sign(map[string]any{"alg": "none", "kid": e.Kid}, claims(), e.priv))
 			f.Add(sign(map[string]any{"alg": "HS256", "kid": e.Kid}, claims(), pubPEM(e.pub)))
 
+			// the same payload octets spelled with pad bits which are not zero (in the payload, in the header, in the signature)
+			for part := 0; part < 3; part++ {
+				parts := strings.Split(sign(h, claims(), e.priv), ".")
+				last := parts[part][len(parts[part])-1]
+				parts[part] = parts[part][:len(parts[part])-1] + string(rune(last+1))
+				f.Add(strings.Join(parts, "."))
+			}
+
 			c := claims()
 			c["exp"] = 0
 			f.Add(sign(h, c, e.priv))
